@@ -140,10 +140,6 @@ resource "aws_instance" "web" {
     device_name = "/dev/sda1"
     volume_size = 10 * 2
   }
-  ebs_block_device {
-    device_name = join("/", ["", "dev", "sdb"])
-    encrypted   = true
-  }
   routes = [
     { cidr = "10.0.0.0/8", gateway = "10.0.0.1" },
     { cidr = "0.0.0.0/0", gateway = self.id },
@@ -175,6 +171,10 @@ resource "aws_instance" "web" {
       }
     }
   }
+  ebs_block_device {
+    device_name = join("/", ["", "dev", "sdb"])
+    encrypted   = true
+  }
   volume "ssd" "data" {
     size = 10
   }
@@ -197,6 +197,8 @@ resource "aws_instance" "west" {
   for_each      = var.sizes
   ami           = "ami-123"
   instance_type = each.value.cores > 2 ? "t3.large" : each.key
+  security_groups = var.enabled ? [local.prefix, "static", lower(var.region)] : []
+  tags            = var.enabled ? { Name = local.prefix, Owner = "ops" } : {}
   dynamic "ebs_block_device" {
     for_each = each.value.tags
     content {
@@ -248,6 +250,14 @@ module "kid" {
     name = local.prefix
     size = 2
   }
+}
+
+output "second_device" {
+  value = aws_instance.web.ebs_block_device[1].device_name
+}
+
+output "arn_account" {
+  value = provider::aws:: arn_parse(aws_instance.web[0].arn)
 }
 
 output "instance_ids" {
@@ -447,6 +457,10 @@ var configs = map[string]config{
 	// more than 100 declarations of one kind: reference candidates above the limit
 	"tf-many": {
 		Root: map[string]string{"main.tf": "locals {\n  m000 = 0\n  m001 = 1\n  m002 = 2\n  m003 = 3\n  m004 = 4\n  m005 = 5\n  m006 = 6\n  m007 = 7\n  m008 = 8\n  m009 = 9\n  m010 = 10\n  m011 = 11\n  m012 = 12\n  m013 = 13\n  m014 = 14\n  m015 = 15\n  m016 = 16\n  m017 = 17\n  m018 = 18\n  m019 = 19\n  m020 = 20\n  m021 = 21\n  m022 = 22\n  m023 = 23\n  m024 = 24\n  m025 = 25\n  m026 = 26\n  m027 = 27\n  m028 = 28\n  m029 = 29\n  m030 = 30\n  m031 = 31\n  m032 = 32\n  m033 = 33\n  m034 = 34\n  m035 = 35\n  m036 = 36\n  m037 = 37\n  m038 = 38\n  m039 = 39\n  m040 = 40\n  m041 = 41\n  m042 = 42\n  m043 = 43\n  m044 = 44\n  m045 = 45\n  m046 = 46\n  m047 = 47\n  m048 = 48\n  m049 = 49\n  m050 = 50\n  m051 = 51\n  m052 = 52\n  m053 = 53\n  m054 = 54\n  m055 = 55\n  m056 = 56\n  m057 = 57\n  m058 = 58\n  m059 = 59\n  m060 = 60\n  m061 = 61\n  m062 = 62\n  m063 = 63\n  m064 = 64\n  m065 = 65\n  m066 = 66\n  m067 = 67\n  m068 = 68\n  m069 = 69\n  m070 = 70\n  m071 = 71\n  m072 = 72\n  m073 = 73\n  m074 = 74\n  m075 = 75\n  m076 = 76\n  m077 = 77\n  m078 = 78\n  m079 = 79\n  m080 = 80\n  m081 = 81\n  m082 = 82\n  m083 = 83\n  m084 = 84\n  m085 = 85\n  m086 = 86\n  m087 = 87\n  m088 = 88\n  m089 = 89\n  m090 = 90\n  m091 = 91\n  m092 = 92\n  m093 = 93\n  m094 = 94\n  m095 = 95\n  m096 = 96\n  m097 = 97\n  m098 = 98\n  m099 = 99\n  m100 = 100\n  m101 = 101\n  m102 = 102\n  m103 = 103\n  m104 = 104\n  m105 = 105\n  m106 = 106\n  m107 = 107\n  m108 = 108\n  m109 = 109\n  m110 = 110\n  m111 = 111\n  m112 = 112\n  m113 = 113\n  m114 = 114\n  m115 = 115\n  m116 = 116\n  m117 = 117\n  m118 = 118\n  m119 = 119\n  m120 = 120\n  m121 = 121\n  m122 = 122\n  m123 = 123\n  m124 = 124\n  m125 = 125\n  m126 = 126\n  m127 = 127\n  m128 = 128\n  m129 = 129\n}\n\noutput \"pick\" {\n  value = local.m001\n}\n\noutput \"sum\" {\n  value = local.m002 + local.m1\n}\n"},
+	},
+	// half-typed and complete type declarations side by side
+	"tf-typedecls": {
+		Root: map[string]string{"main.tf": "variable \"t1\" {\n  type = tuple()\n}\n\nvariable \"t2\" {\n  type = tuple()\n}\n\nvariable \"o1\" {\n  type = object()\n}\n\nvariable \"l1\" {\n  type = list()\n}\n\nvariable \"m1\" {\n  type = map(tuple())\n}\n\nvariable \"ok\" {\n  type = object({ a = string, b = optional(number), c = tuple([string, bool]) })\n}\n"},
 	},
 	"tf-child-only": {
 		Root:  map[string]string{"main.tf": "module \"kid\" {\n  source = \"./child\"\n  name   = \"n\"\n}\n\noutput \"g\" {\n  value = module.kid.greeting\n}\n"},
